@@ -403,7 +403,9 @@ func (g *Gen) priorPacket(e *helperEntry, hostile bool) []avp {
 			}
 		case 3:
 			// another vendor's attribute
-			as = append(as, avp{26, g.vsaValue(g.Pick(9, 311, 14122, 14988, 3561, 14823, e.VendorID+1), []int{1, 2, e.VendorType}, hostile && g.Bool())})
+			// another vendor's attribute, incl. vendor ids that differ from this one in a single octet only
+			as = append(as, avp{26, g.vsaValue(g.Pick(9, 311, 14122, 14988, 3561, 14823, e.VendorID+1, e.VendorID^0x01000000, (e.VendorID+0x01000000)&0x7fffffff, e.VendorID^0x00010000, e.VendorID^0x00000100, e.VendorID^0x7f000000),
+				[]int{1, 2, e.VendorType, e.VendorType}, hostile && g.Bool())})
 		case 4:
 			if e.VendorID != 0 {
 				as = append(as, avp{26, g.vsaValue(e.VendorID, []int{e.VendorType, 1, 2, 3, 250}, hostile)})
